@@ -1,7 +1,11 @@
 (** C09 - World lock: held exactly while queries are open; blocks every structural change.
     Statements only; proofs in Proofs/Locks.v (lock mask and bit pool, all histories of
-    lock/unlock requests) and Proofs/LockWorld.v (structural operations under a lock). *)
-From Arche Require Import Model.Base Model.Pool Model.World Model.Ops Proofs.Locks Proofs.LockWorld.
+    lock/unlock requests), Proofs/LockWorld.v (structural operations under a lock) and
+    Proofs/LockHist.v (the world level: for EVERY history of ANY operations of the model -
+    legal or not, queries opened by Query or by batch Q calls, exhausted by Next / Step or
+    closed, removal events, Reset, loads - the held lock bits are exactly the lock bits of
+    the open queries, each held once; hence locked iff a query is open). *)
+From Arche Require Import Model.Base Model.Pool Model.World Model.Ops Proofs.Locks Proofs.LockWorld Proofs.LockHist.
 
 (** For every history of lock and unlock requests on a lock mask of [tb] bits: the world
     is locked exactly while some lock is held, no bit is held twice, at most [tb] are held,
@@ -43,5 +47,17 @@ Theorem C09_register_locked : forall w key isrel zs,
              (exists c, w_reg w !! id = Some c /\ ci_key c = key).
 Proof. exact register_locked. Qed.
 
+
+(** The world level: one step of any operation, and every history from a new world. *)
+Theorem C09_step : forall w o, lockq w -> lockq (fst (fst (step w o))).
+Proof. exact lockq_step. Qed.
+
+Theorem C09_locked_iff_query_open : forall capinc relcapinc tb ops,
+  let w := run (world_init capinc relcapinc tb) ops in
+  (is_locked w = true <-> exists q, q ∈ w_queries w /\ q_closed q = false) /\
+  NoDup (open_locks w) /\ length (open_locks w) <= w_tb w.
+Proof. exact locked_iff_open_query. Qed.
+
 Print Assumptions C09_lock_history.
+Print Assumptions C09_locked_iff_query_open.
 Print Assumptions C09_locked_rejects.
